@@ -409,6 +409,10 @@ func (self *_parser) parseObjectProperty() ast.Property {
 	if value == nil {
 		return nil
 	}
+	if tkn == token.PRIVATE_IDENTIFIER {
+		// only a class element can have a private name
+		self.error(value.Idx0(), err_UnexpectedToken, token.PRIVATE_IDENTIFIER)
+	}
 	if token.IsId(tkn) || tkn == token.STRING || tkn == token.NUMBER || tkn == token.ILLEGAL {
 		if generator {
 			return &ast.PropertyKeyed{
@@ -449,6 +453,9 @@ func (self *_parser) parseObjectProperty() ast.Property {
 			_, _, keyValue, tkn1 := self.parseObjectPropertyKey()
 			if keyValue == nil {
 				return nil
+			}
+			if tkn1 == token.PRIVATE_IDENTIFIER {
+				self.error(keyValue.Idx0(), err_UnexpectedToken, token.PRIVATE_IDENTIFIER)
 			}
 
 			var kind ast.PropertyKind
